@@ -9,7 +9,12 @@ import os
 import subprocess
 import time
 
+import sys
+
 import vcommon as V
+
+sys.path.insert(0, os.path.join(V.VERIF, "translator"))
+import c14_idmap as TR  # noqa
 
 # (finding id, flag position, witness history, faulty answer, what)
 DEFECTS = [
@@ -27,6 +32,9 @@ DEFECTS = [
     ("F28", 4, "1111111 nt:abcdef ins:1:2:- rg rs:0:2:5 re:0:1:1 split:2:3",
      "splitText leaves a live range invalid: a range from inside the tail of the text to (parent, index+1) keeps its end "
      "in front of the new node while its start moves into it (start after end)"),
+    ("F29", 5, "IDMAP ne app:1:2 sa:2:idx sid:2:1 get:idx rm:2 get:idx",
+     "getElementById returns an element that has been removed from the document tree (the ID map is keyed by attribute "
+     "only; DOM: the element must be in the document -- a linear scan of the tree finds none)"),
 ]
 MASKS = [65535, 65535, 1, 4, 5, 128, 133, 260, 261]
 NAMES = "abcde"
@@ -313,6 +321,153 @@ def gen_history(rng, steps):
     return tab + " " + " ".join(m.ops), m.stats
 
 
+# ------------------------------------------------------------------------------------------------------------
+# getElementById histories: ID values chosen to collide in DOMNodeIDMap's open-addressing table
+# ------------------------------------------------------------------------------------------------------------
+def xhash(s, mod):
+    """XMLString::hash(const XMLCh*, modulus) -- only used to CHOOSE colliding ids (generator aid, not an oracle)"""
+    if not s:
+        return 0
+    h = ord(s[0])
+    for c in s[1:]:
+        h = (h * 38 + (h >> 24) + ord(c)) & 0xFFFFFFFFFFFFFFFF
+    return h % mod
+
+
+_FAMILIES = {}
+
+
+def families(mod, upto, minlen):
+    key = (mod, upto, minlen)
+    if key not in _FAMILIES:
+        fam = {}
+        for i in range(upto):
+            fam.setdefault(xhash("id%d" % i, mod), []).append("id%d" % i)
+        _FAMILIES[key] = [v for _, v in sorted(fam.items()) if len(v) >= minlen]
+    return _FAMILIES[key]
+
+
+def gen_id_history(rng, steps, sizes, grow):
+    """sizes: table sizes read from the source by the translator; grow: drive fNumEntries over the first fill limit"""
+    st = {}
+    ops = []
+
+    def emit(o, cat):
+        ops.append(o)
+        st[cat] = st.get(cat, 0) + 1
+    f1 = families(sizes[0][0] - 1, 3000, 3)
+    f2 = families(sizes[1][0] - 1, 40000, 3)
+    pool = []
+    for fam in rng.sample(f1, 3) + rng.sample(f2, 2):
+        pool += fam[:4]
+    pool += ["k%d" % rng.randrange(1000) for _ in range(4)]
+    parent = {1: 0}
+    attr = {}                    # element -> [value, isid]
+    used = set()
+    nxt = [2]
+
+    def id_holder(v, but=None):
+        return [e for e, a in attr.items() if a[1] and a[0] == v and e != but]
+
+    def new_elem():
+        e = nxt[0]
+        nxt[0] += 1
+        parent[e] = None
+        emit("ne", "id-new")
+        return e
+
+    def anc(a, x):
+        while x is not None and x != 0:
+            if x == a:
+                return True
+            x = parent[x]
+        return False
+    if rng.random() < 0.3:
+        # a parsed document: the DTD declares id as ID, the parser registers the attributes
+        vs = rng.sample(pool, rng.randint(2, 8))
+        emit("parse:" + ",".join(vs), "id-parse")
+        for v in vs:
+            e = nxt[0]
+            nxt[0] += 1
+            parent[e] = 1
+            attr[e] = [v, True]
+            used.add(v)
+    for _ in range(rng.randint(3, 7)):
+        e = new_elem()
+        p = rng.choice([x for x in parent if x != e and (parent[x] is not None or x == 1)])
+        emit("app:%d:%d" % (p, e), "id-app")
+        parent[e] = p
+    els = lambda: [e for e in parent]
+
+    def one_step():
+        c = rng.random()
+        e = rng.choice(els())
+        if c < 0.08:
+            e = new_elem()
+            p = rng.choice([x for x in parent if x != e])
+            emit("app:%d:%d" % (p, e), "id-app")
+            parent[e] = p
+        elif c < 0.16:
+            cand = [x for x in parent if x != 1 and parent[x] is not None]
+            if cand:
+                x = rng.choice(cand)
+                emit("rm:%d" % x, "id-rm")
+                parent[x] = None
+        elif c < 0.24:
+            n = rng.choice([x for x in parent if x != 1])
+            p = rng.choice(els())
+            emit("app:%d:%d" % (p, n), "id-move")
+            if not anc(n, p):
+                parent[n] = p
+        elif c < 0.46:
+            v = rng.choice(pool)
+            if e in attr and attr[e][1] and id_holder(v, e):
+                return
+            emit("sa:%d:%s" % (e, v), "id-setattr")
+            used.add(v)
+            attr[e] = [v, attr[e][1] if e in attr else False]
+        elif c < 0.62:
+            on = rng.random() < 0.65
+            if on and e in attr and id_holder(attr[e][0], e):
+                return
+            emit("sid:%d:%d" % (e, on), "id-setid")
+            if e in attr:
+                attr[e][1] = on
+        elif c < 0.67:
+            emit("ra:%d" % e, "id-remattr")
+            attr.pop(e, None)
+        else:
+            emit("get:%s" % (rng.choice(sorted(used)) if used and rng.random() < 0.9 else rng.choice(pool)), "id-get")
+    for _ in range(steps):
+        one_step()
+    if grow:
+        # every add() counts towards the fill limit (remove() never decrements): value changes of ID attributes
+        # drive the table over it; lookups of the colliding families before, while and after
+        holders = [e for e, a in attr.items() if a[1]]
+        if not holders:
+            e = rng.choice(els())
+            v = next(x for x in pool if not id_holder(x))
+            emit("sa:%d:%s" % (e, v), "id-setattr")
+            emit("sid:%d:1" % e, "id-setid")
+            attr[e] = [v, True]
+            used.add(v)
+            holders = [e]
+        for k in range(sizes[0][1] + rng.randint(5, 40)):
+            e = rng.choice(holders)
+            free = [x for x in pool if not id_holder(x, e)]
+            v = rng.choice(free)
+            emit("sa:%d:%s" % (e, v), "id-grow-setattr")
+            attr[e][0] = v
+            used.add(v)
+            if k % 40 == 0 or k > sizes[0][1] - 12:
+                emit("get:%s" % rng.choice(sorted(used)), "id-get")
+        for _ in range(steps // 2):
+            one_step()
+    for v in sorted(used):
+        emit("get:%s" % v, "id-get-final")
+    return "IDMAP " + " ".join(ops), st
+
+
 def first_diff(a, b):
     ta, tb = a.split(), b.split()
     for i in range(max(len(ta), len(tb))):
@@ -336,7 +491,14 @@ def run(ctx):
                        "change counter does not wrap (nat in the model, int in the code)",
                        "TreeWalker.currentNode is only set to the root or to nodes the walker accepts"]
     ctx.build_lib()
-    ok, out, failed = ctx.prove(["Base", "C14"], ["theories/C14/Properties_C14.vo", "theories/C14/Extract_C14.vo"],
+    try:
+        idconst = TR.generate()
+    except Exception as e:
+        ctx.note("translator failed: %r" % (e,))
+        ctx.violation("translator", {"what": "translator can no longer read DOMNodeIDMap's sizes / XMLString::hash",
+                                     "error": repr(e)}, no_input=True)
+        return
+    ok, out, failed = ctx.prove(["Base", "Gen", "C14"], ["theories/C14/Properties_C14.vo", "theories/C14/Extract_C14.vo"],
                                 props_file="theories/C14/Properties_C14.v")
     proof_broken = not ok
     if proof_broken:
@@ -352,7 +514,7 @@ def run(ctx):
     wit = [d[2] for d in DEFECTS]
     _, w_impl, _ = run_bin([xh], wit)
     _, w_spec, _ = run_bin([xm, "spec"], wit)
-    _, w_bug, _ = run_bin([xm, "model", "00000"], wit)
+    _, w_bug, _ = run_bin([xm, "model", "000000"], wit)
     if len(w_impl) != len(wit):
         ctx.violation("harness-crash", {"what": "harness lost lines on the witnesses", "answered": len(w_impl)})
         return
@@ -390,6 +552,13 @@ def run(ctx):
             reqs.append(r)
             for k, v in st.items():
                 stats[k] = stats.get(k, 0) + v
+    if not ctx.replay:
+        nid, ngrow = (300, 10) if ctx.tier == "quick" else (4000, 120)
+        for k in range(nid + ngrow):
+            r, st = gen_id_history(ctx.rng, ctx.rng.choice([30, 60, 120]), idconst["sizes"], k >= nid)
+            reqs.append(r)
+            for kk, v in st.items():
+                stats[kk] = stats.get(kk, 0) + v
     t0 = time.time()
     rc, impl, err = run_bin([xh], reqs)
     while (rc != 0 or len(impl) < len(reqs)) and len(impl) < len(reqs):
@@ -406,7 +575,7 @@ def run(ctx):
         return
     _, model, err2 = run_bin([xm, "model", flags], reqs)
     _, spec, _ = run_bin([xm, "spec"], reqs)
-    _, fixed, _ = run_bin([xm, "model", "11111"], reqs)
+    _, fixed, _ = run_bin([xm, "model", "111111"], reqs)
     ctx.note("histories %d: harness %.1fs, model+spec %.1fs" % (len(reqs), t1 - t0, time.time() - t1))
     if len(model) != len(reqs) or len(spec) != len(reqs) or len(fixed) != len(reqs):
         ctx.violation("model-crash", {"what": "model driver crashed", "stderr": err2[-1500:]}, no_input=True)
@@ -441,7 +610,13 @@ def run(ctx):
             n_div += 1
             k = first_diff(i, m)
             ks = first_diff(i_s, s)
-            if ks is not None and ks <= k and n_div <= 5:
+            ti = i.split()[k] if k < len(i.split()) else ""
+            if ti.startswith("null!SCAN=") and n_div <= 5:
+                ctx.violation("getelementbyid", {"request": truncate(req, k), "impl": " ".join(i.split()[:k + 1]),
+                                                 "model": " ".join(m.split()[:k + 1]),
+                                                 "what": "getElementById answers null although a linear scan of the document tree "
+                                                         "finds an element carrying that ID (%s); the model finds it too" % ti})
+            elif ks is not None and ks <= k and n_div <= 5:
                 ctx.violation("divergence", {"request": truncate(req, k), "impl": " ".join(i.split()[:k + 1]),
                                              "model": " ".join(m.split()[:k + 1]), "spec": " ".join(s.split()[:k + 1]),
                                              "what": "library differs from the model and from DOM Traversal-Range (Spec14) at op %d" % k})
